@@ -228,6 +228,14 @@ Definition class_obj (cs : cstore) (r : cref) : option cls :=
 Definition table_of (cs : cstore) (r : cref) : mtable :=
   match class_obj cs r with Some c => methods c | None => [] end.
 
+(* the texts of the error messages (format strings split at their `{}` holes); props/C07.v compares them with
+   the strings the translator reads off the current vm.rs *)
+Definition msg_undefined_property : list string := ["Undefined property '"; "'."].
+Definition msg_expected_args : list string := ["Expected "; " arguments but found "; "."].
+Definition msg_superclass : string := "Superclass must be a class.".
+Definition msg_only_instances : string := "Only instances have fields.".
+Definition msg_not_callable : string := "Can only call functions and methods.".
+
 Definition undefined_property (n : string) : string := "Undefined property '" ++ n ++ "'.".
 Definition expected_args (arity argc : nat) : string :=
   "Expected " ++ show_nat arity ++ " arguments but found " ++ show_nat argc ++ ".".
